@@ -168,6 +168,16 @@ static void rec_create(const pthread_attr_t* a, void* (*fn)(void*), void* arg)
   rec("create(%s,%s,%s)", abuf, fn == expected_fn ? "f" : "f?", arg == expected_arg ? "arg" : "arg?");
 }
 
+static pthread_t fake_threads[8];
+static int       n_fake_threads;
+
+static void reap_fake_threads(void)
+{
+  while (n_fake_threads > 0) {
+    __real_pthread_join(fake_threads[--n_fake_threads], NULL);
+  }
+}
+
 int __wrap_pthread_create(pthread_t* t, const pthread_attr_t* a, void* (*fn)(void*), void* arg)
 {
   if (fake) {
@@ -185,7 +195,12 @@ int __wrap_pthread_create(pthread_t* t, const pthread_attr_t* a, void* (*fn)(voi
       if (fake_started <= 8) {
         fake_stacks[fake_started - 1] = fake_stack;
       }
-      *t         = pthread_self();
+      // the thread IS started (with default attributes: the size the caller asked for may be absurd), so that a
+      // start-up handshake between creator and thread completes; reap_fake_threads() joins it when the case ends
+      *t = pthread_self();
+      if (n_fake_threads < 8 && !__real_pthread_create(&fake_threads[n_fake_threads], NULL, fn, arg)) {
+        *t = fake_threads[n_fake_threads++];
+      }
     }
     return r;
   }
@@ -193,6 +208,31 @@ int __wrap_pthread_create(pthread_t* t, const pthread_attr_t* a, void* (*fn)(voi
     rec_create(a, fn, arg);
   }
   return __real_pthread_create(t, a, fn, arg);
+}
+
+// A thread of the library that posts a semaphore (a start-up handshake with its creator, say) is held up right
+// after the post: whatever it still reads from its creator's frame afterwards is read late.
+#include <semaphore.h>
+int __real_sem_post(sem_t*);
+int __wrap_sem_post(sem_t* s)
+{
+  const int r = __real_sem_post(s);
+  if (!on_main()) {
+    const int       e = errno;
+    struct timespec d = {0, 20000000};
+    nanosleep(&d, NULL);
+    errno = e;
+  }
+  return r;
+}
+
+// the creator's frames below the call are overwritten as soon as zix_thread_create has returned
+static void __attribute__((noinline)) clobber_stack(void)
+{
+  volatile unsigned char junk[16384];
+  for (size_t i = 0; i < sizeof(junk); ++i) {
+    junk[i] = 0xA5U;
+  }
 }
 
 int __wrap_pthread_attr_destroy(pthread_attr_t* a)
@@ -266,6 +306,7 @@ static void case_scripted(char** tok)
   fake         = 1;
   const ZixStatus st = e_thread_create(&th, size, never_run, &dummy);
   fake         = 0;
+  reap_fake_threads();
   printf("st=%s started=%d", status_name(st), fake_started);
   if (fake_started) {
     printf(" stack_ge=%d || %s stack=%zu\n", fake_stack >= size, calls, fake_stack);
@@ -294,6 +335,7 @@ static void case_interleaved(char** tok)
   const ZixStatus st = e_thread_create(&th, size_a, never_run, &dummy);
   fake         = 0;
   nest_size    = 0;
+  reap_fake_threads();
   // the inner creator's pthread_create comes first, the outer one second
   printf("st=%s/%s started=%d", status_name(st), status_name(nest_status), fake_started);
   if (fake_started == 2) {
@@ -403,6 +445,7 @@ static void run_real(size_t size, int n, long delay_us, int reverse, int open_ou
     recording    = 1;
     slots[i].st  = e_thread_create(&slots[i].th, size, thread_fn, &slots[i]);
     recording    = 0;
+    clobber_stack();
     seq          = seq && !strcmp(calls, want);
     // the attribute object must have been given at least the requested size
     set_ge       = set_ge && captured_sets == 1 && captured_size >= size;
@@ -466,6 +509,7 @@ int main(void)
   while (vgetline(&line, &cap)) {
     int n = vsplit(line, tok, 8);
     entry_errno = 0;
+    alarm(20); // no call of a scripted case may wait for anything (the real-thread cases set their own limit)
     if (n > 0 && tok[0][0] == '@') {
       entry_errno = atoi(tok[0] + 1);
       --n;
